@@ -87,6 +87,10 @@ def _other_routes(ctx):
                 made.append((label, r))
         add("star constraint by hand", lambda: rc(constraints=[VersionConstraint(comparator="*", version_class=rc.version_class)]))
         add("from_string star", lambda: VersionRange.from_string("vers:%s/*" % rc.scheme))
+        for other in (VR.NpmVersionRange, VR.DebianVersionRange, VR.PypiVersionRange):
+            if other is not rc:
+                add("from_string through %s" % other.__name__, lambda other=other: other.from_string("vers:%s/>=1.0.0|<2.0.0" % rc.scheme))
+                add("from_string(1-1) through %s" % other.__name__, lambda other=other: other.from_string("vers:%s/>=1.0-1|<2.0.1.1" % rc.scheme))
         for e in NATIVES.get(rc.__name__, []):
             add("from_native(%r)" % e, lambda e=e: rc.from_native(e))
             add("from_natives([%r])" % e, lambda e=e: rc.from_natives([e]))
